@@ -191,13 +191,24 @@ def _starve(rng, frames, **over):
 
 
 def c04(res, wd):
-    variants = [("s2_w1", {"Window": 1, "MaxFrame": 3}), ("s2_w0", {"Window": 0, "MaxFrame": 3})]
+    # s2_w0_wait: lockstep sessions may call advance_frame_with_wait_timeout(2 ms); one in-flight packet may
+    # arrive at either yield of the waiting call (the clock bound allows one such call per behaviour, anywhere)
+    variants = [("s2_w1", {"Window": 1, "MaxFrame": 3}), ("s2_w0", {"Window": 0, "MaxFrame": 3}),
+                ("s2_w0_wait", {"Window": 0, "MaxFrame": 3, "WaitMs": 2, "MaxClock": 1000002})]
     if res.tier == "thorough":
-        variants += [("s2_w2", {"Window": 2, "MaxFrame": 4}), ("s2_w0_delay", {"Window": 0, "MaxFrame": 3, "Peers": "GenPeers2d"})]
+        variants += [("s2_w2", {"Window": 2, "MaxFrame": 4}), ("s2_w0_delay", {"Window": 0, "MaxFrame": 3, "Peers": "GenPeers2d"}),
+                     ("s2_w0_wait2", {"Window": 0, "MaxFrame": 3, "WaitMs": 2, "MaxClock": 1000004})]
     model_session(res, wd, "C04", variants, {"C04"})
     ns, depth = sizes(res.tier, (8, 90), (60, 140))
     engines.s2i_runs(res, "C04", wd, "g2w0", {"MaxFrame": 8, "Window": 0, "MaxSteps": depth - 10}, ns, depth, {"C04"})
     engines.s2i_runs(res, "C04", wd, "g2w1", {"MaxFrame": 8, "Window": 1, "MaxSteps": depth - 10}, ns, depth, {"C04"})
+    engines.s2i_runs(res, "C04", wd, "g2w0wait", {"MaxFrame": 8, "Window": 0, "WaitMs": 3, "MaxClock": 1000060,
+                                                  "MaxSteps": depth - 10}, ns, depth, {"C04", "C02", "C01", "C03"})
+    # the waiting API on random lockstep runs (packets arrive while the call spins), with conformance
+    wps = plans.batch(res.seed * 1000 + 41, sizes(res.tier, 10, 60), 200, fam=plans.lockwait)
+    engines.obs_runs(res, "C04", wps, {"C04", "C02", "C01", "C03"}, wd, "c04w",
+                     nontrivial=lambda st, pl: st.get("waitLoops", 0) >= 5 and st.get("waitAdvanced", 0) >= 1)
+    engines.conform_sample(res, "C04", wps, wd, "c04w", sizes(res.tier, 3, 10))
     n, frames = sizes(res.tier, (6, 300), (40, 1500))
     rng = random.Random(res.seed * 1000 + 8)
     ps = []
@@ -206,7 +217,10 @@ def c04(res, wd):
     ps += [plans.general(rng, frames, window=0) for _ in range(max(2, n // 2))]
     engines.obs_runs(res, "C04", ps, {"C04"}, wd, "c04",
                      nontrivial=lambda st, pl: st["stalls"] >= 5)
-    res.rule = ("speculation bound on every first simulation / load, lockstep contract for window 0 "
+    res.rule = ("[advance_frame_with_wait_timeout is modelled (P2P_AdvanceFrameWait): exhaustive lockstep model with "
+                "a waiting call and an arrival at either yield, TLC schedules with waiting calls replayed, random "
+                "lockstep runs through the waiting API with conformance] "
+                "speculation bound on every first simulation / load, lockstep contract for window 0 "
                 "(Monitor.tla AdvViol/ReqStep/TickP2P): exhaustive model runs for windows 0,1,2; TLC schedules "
                 "replayed on real sessions; random starvation runs (one link dead for 0.2-4 s at a time, timeouts "
                 "disabled) for windows 0..12; non-trivial = >=5 stalled calls")
